@@ -214,6 +214,11 @@ fn read_woff_independent(d: &[u8]) -> Option<(u32, Vec<(u32, Vec<u8>)>)> {
     }
     let flavor = be32(d, 4)?;
     let n = be16(d, 12)? as usize;
+    // WOFF 1.0: "reserved: must be set to zero" - a file that breaks it is not a WOFF file in the
+    // sense of the property (W3C fixture header-reserved-001 is an invalid file that readers must reject)
+    if be16(d, 14)? != 0 {
+        return None;
+    }
     let mut out = Vec::new();
     for i in 0..n {
         let r = 44 + 20 * i;
